@@ -92,25 +92,15 @@ pub fn number_to_string(n: f64) -> String {
 
 /// Format a number in exponential notation matching JavaScript's output
 fn format_exponential(n: f64) -> String {
-    // Get the exponent
-    let abs_n = n.abs();
-    let exponent = math::floor(math::log10(abs_n)) as i32;
-    let mantissa = n / math::powi(10_f64, exponent);
-
-    // Format mantissa - remove trailing zeros after decimal point
-    let mantissa_str = if math::trunc(mantissa) == mantissa {
-        format!("{:.0}", mantissa)
-    } else {
-        let s = format!("{}", mantissa);
-        // Remove trailing zeros but keep at least one digit after decimal
-        s.trim_end_matches('0').to_string()
-    };
-
-    // Format exponent with sign
-    if exponent >= 0 {
-        format!("{}e+{}", mantissa_str, exponent)
-    } else {
-        format!("{}e{}", mantissa_str, exponent)
+    // `{:e}` prints the shortest digits that read back to `n` ("1.5e-7", "1e21"); computing a
+    // mantissa as `n / 10^exponent` would print the digits of another double (and divides by
+    // zero for subnormals). JavaScript writes a `+` in front of a non-negative exponent.
+    let s = format!("{:e}", n);
+    match s.split_once('e') {
+        Some((mantissa, exponent)) if !exponent.starts_with('-') => {
+            format!("{}e+{}", mantissa, exponent)
+        }
+        _ => s,
     }
 }
 
